@@ -387,11 +387,14 @@ static void handle(int argc, char** argv)
 		int i, ok = 1;
 		for (i = 0; i < 2; ++i)
 		{
-			if (!hex2le(buf, O_OF_W(N), argv[i])) { ok = 0; break; }
+			/* a value that does not fit into n words of THIS build cannot be passed to ecpIsOnA at all: it is not a
+			   coordinate (>= 2^(n B_PER_W) > p); answered 0 here so that the line means the same for every word size */
+			if (!hex2le(buf, O_OF_W(N), argv[i])) { ok = hv_(argv[i][0]) >= 0 ? 2 : 0; break; }
 			wwFrom(a + i * N, buf, O_OF_W(N));
 			if (!BIN && wwCmp(a + i * N, F->mod, N) < 0 && !fe(a + i * N, argv[i])) ok = 0;
 		}
 		if (!ok) printf("bad-op");
+		else if (ok == 2) printf("0");
 		else printf("%d", (BIN ? ec2IsOnA(a, EC, STACK) : ecpIsOnA(a, EC, STACK)) ? 1 : 0);
 		free(a);
 	}
